@@ -8,7 +8,7 @@ from typing import Dict, List, Optional, Set, Tuple
 
 from ..astq import (assignments_to, call_name, in_subtree, loop_vars, names_in, occ, stmt_of, storage_loops,
                     strip_enumerate)
-from ..logic import entails, guard_clauses, guards
+from ..logic import consistent_with, entails, guard_clauses, guards
 from ..model import AnalysisError, Func, ancestors, first_line, norm, walk_local, parent
 from ..report import Ob, rule
 from .rewrite import filter_clause, make_subst, _filter_param, is_temp_append, rewrite_loops
@@ -76,6 +76,13 @@ def accumulators(f: Func, lp: ast.For) -> List[ast.AST]:
     return out
 
 
+def _innermost_loop(n: ast.AST):
+    for a in ancestors(n):
+        if isinstance(a, (ast.For, ast.While)):
+            return a
+    return None
+
+
 @rule("C01.R5", ["C01", "C07", "C10"], min_instances=10, design="3.1")
 def scan_guards(ctx):
     """In every scan loop the row is used only under `filter unset or row's measurement == filter`, and (query consumers) only when query(point of this row) is true."""
@@ -112,11 +119,36 @@ def scan_guards(ctx):
                 if not entails(cl, fc):
                     bad.append(f"`{norm(a, 50)}` (line {a.lineno}) is not guarded by the measurement filter "
                                f"({fp} unset or row's measurement == {fp})")
+                else:
+                    # ... and the filter must not exclude more than it says: a row is still used when no filter is
+                    # given, and when its measurement equals the filter
+                    eq_atom = next(a_ for a_, p_ in fc if p_)
+                    tr_atom = next(a_ for a_, p_ in fc if not p_)
+                    if not consistent_with(cl, [(tr_atom, False), (eq_atom, False)]):
+                        bad.append(f"`{norm(a, 50)}` (line {a.lineno}) is never reached when no measurement filter is given "
+                                   f"(the row's measurement never equals an unset filter): every row drops out")
+                    elif not consistent_with(cl, [(tr_atom, True), (eq_atom, True)]):
+                        bad.append(f"`{norm(a, 50)}` (line {a.lineno}) is never reached for a row of the requested measurement")
                 if f.name in QUERY_CONSUMERS and "query" in f.params():
                     q = f"truthy(query(self._storage._deserialize_storage_item({item})))"
                     if not any(len(c) == 1 and next(iter(c)) == (q, True) for c in cl):
                         bad.append(f"`{norm(a, 50)}` (line {a.lineno}) is not guarded by query(point of `{item}`) "
                                    f"being true")
+            # leaving the scan early is only sound once a result was found: an exit statement must carry the same
+            # guards as a result statement (filter, and the query for query consumers)
+            if not rewriting:
+                for x in walk_local(lp):
+                    if isinstance(x, ast.Break) and _innermost_loop(x) is lp:
+                        cl = guard_clauses(guards(x, stop=lp), subst)
+                        okx = entails(cl, fc)
+                        if okx and f.name in QUERY_CONSUMERS and "query" in f.params():
+                            q = f"truthy(query(self._storage._deserialize_storage_item({item})))"
+                            okx = any(len(c) == 1 and next(iter(c)) == (q, True) for c in cl)
+                        elif okx:
+                            okx = False  # a getter has no reason to stop before the last row
+                        if not okx:
+                            bad.append(f"`break` at line {x.lineno} ends the scan on a row that is not a result: "
+                                       f"later rows are never looked at (measurement filter)")
             # results must not be filtered by the stored *values* (only by filter / query / requested keys)
             vals = set()
             for n in walk_local(lp):
